@@ -239,6 +239,29 @@ def run(ctx, rep):
                "an exception raised here (malformed request / handler failure, incl. SystemExit/KeyboardInterrupt raised by "
                "the callee) is not caught by the replying handler clause: the requester gets no response", ctx.loc(n))
 
+    # the replying handler clause itself must not depend on what the failed try body was computing: names bound in the try body
+    # may be unbound (the destructuring failed) or peer-controlled (an unknown handler id) exactly when the clause runs
+    for tr in [x for x in A.walk(fn) if isinstance(x, ast.Try)]:
+        bound = set()
+        for st_ in tr.body:
+            bound |= A.names_stored(st_)
+        for h_ in tr.handlers:
+            sends_exc = [x for x in A.walk(h_) if isinstance(x, ast.Call) and (A.call_name(x) or "").startswith("self.")
+                         and (A.call_name(x) or "")[5:] in senders and x.args and ctx.try_fold(x.args[0]) == MSG_EXC]
+            if not sends_exc:
+                continue
+            uses = []
+            for st_ in h_.body:
+                for x in A.walk(st_):
+                    if isinstance(x, ast.Name) and isinstance(x.ctx, ast.Load) and x.id in bound and x.id not in prm:
+                        uses.append(x)
+            rep.ob("R08.1", "_dispatch_request: the replying handler clause does not consume the failed request's data", not uses,
+                   "the clause uses only the exception triple, the sequence number and the configuration" if not uses else
+                   "the clause that must send the exception reply reads `%s`, which the failed try body was still computing: when the "
+                   "failure is a malformed request (payload not a pair: the name is unbound; unknown handler id: the lookup fails "
+                   "again) a second exception escapes, no response is sent and the connection is torn down"
+                   % uses[0].id, ctx.loc(uses[0]) if uses else ctx.loc(h_), kind="site")
+
     # R08.2: encode failures of the reply
     enc_sites = []
     for n in g.live:
